@@ -697,7 +697,31 @@ func (f *Frame) staticCall(instr ssa.Instruction, callee *ssa.Function, args []*
 		f.defaultCall(instr, callee.Signature, eff, args, setResult)
 		return
 	}
+	if isRepoFunc(callee) && len(callee.Blocks) > 0 {
+		f.summaryCall(instr, callee, args, setResult)
+		return
+	}
 	f.E.fail("callee %s needs a contract (or a trusted default)", key)
+}
+
+// summaryCall: a repo callee without contract that cannot be inlined is
+// abstracted by its inferred effect: every heap key its body (transitively)
+// may write is havocked, the result is unconstrained.
+func (f *Frame) summaryCall(instr ssa.Instruction, callee *ssa.Function, args []*Val, setResult func(*Val)) {
+	ms := f.E.modsetOf(callee)
+	if _, unknown := ms["*"]; unknown {
+		f.E.fail("callee %s has unknown effects (calls through function values or unresolvable interfaces); it needs a contract", funcKey(callee))
+	}
+	f.E.Assumes["effect summary of "+funcKey(callee)+" inferred from its SSA (writes only the heap keys its body and callees store to; result unconstrained)"] = true
+	f.st = f.st.Clone()
+	for _, k := range sortedKeys(ms) {
+		f.st.Set(k, ms[k], f.fresh("hv$"+k, ms[k]))
+	}
+	r := f.freshResult(callee.Signature, callName(instr)+".r")
+	if r != nil {
+		f.assumeAllocated(r)
+	}
+	setResult(r)
 }
 
 func (f *Frame) canInline(callee *ssa.Function) bool {
@@ -993,7 +1017,11 @@ func (f *Frame) applyModifies(fc *FuncContract, env *Env, post *State, key strin
 			}
 			f.E.fail("contract for %s has no modifies clause and no body to infer one from", key)
 		}
-		for k, s := range f.E.modsetOf(fn) {
+		ms := f.E.modsetOf(fn)
+		if _, unknown := ms["*"]; unknown {
+			f.E.fail("contract for %s has no modifies clause and its body has unknown effects (function-value calls); add a modifies clause", key)
+		}
+		for k, s := range ms {
 			post.Set(k, s, f.fresh("hv$"+k, s))
 		}
 		return
@@ -1306,13 +1334,27 @@ func (e *Enc) callModKeys(c *ssa.CallCommon, m map[string]*Sort) {
 		return
 	}
 	if c.IsInvoke() {
-		return // effects of interface methods come from their contracts at the call site
+		e.invokeModKeys(c, m)
+		return
 	}
 	callee := c.StaticCallee()
 	if callee == nil {
 		if mc, ok := c.Value.(*ssa.MakeClosure); ok {
 			callee = mc.Fn.(*ssa.Function)
 		} else {
+			// call through a function value
+			if u, ok := c.Value.(*ssa.UnOp); ok {
+				if g, ok := u.X.(*ssa.Global); ok {
+					key := pkgQualifier(g.Pkg.Pkg) + "." + g.Name()
+					if fc := e.P.Cs.Funcs[key]; fc != nil && (fc.Pure || fc.Trusted && len(fc.Modifies) == 0) {
+						return
+					}
+				}
+			}
+			if _, ok := e.P.Spec.funcTypeEffect(typeKey(c.Value.Type())); ok {
+				return
+			}
+			m["*"] = BoolS // unknown effects
 			return
 		}
 	}
@@ -1338,10 +1380,83 @@ func (e *Enc) callModKeys(c *ssa.CallCommon, m map[string]*Sort) {
 		return
 	}
 	if !isRepoFunc(callee) {
+		if eff, ok := e.P.Spec.defaultEffect(key, callee); ok && len(eff.writes) > 0 {
+			// writes through pointer arguments: the pointee keys
+			for _, wi := range eff.writes {
+				if wi < len(c.Args) {
+					if p, k, ok := e.staticAddrKey(c.Args[wi]); ok {
+						if pt, ok := c.Args[wi].Type().Underlying().(*types.Pointer); ok {
+							e.addLeafKeys(m, p, pt.Elem(), k)
+						}
+					}
+				}
+			}
+		}
 		return
 	}
 	for k, s := range e.modsetOf(callee) {
 		m[k] = s
+	}
+}
+
+// interface method call: union over all repo types implementing the interface
+func (e *Enc) invokeModKeys(c *ssa.CallCommon, m map[string]*Sort) {
+	it := c.Value.Type()
+	key := ""
+	if n, ok := it.(*types.Named); ok {
+		if n.Obj().Pkg() != nil {
+			key = pkgQualifier(n.Obj().Pkg()) + "." + n.Obj().Name() + "." + c.Method.Name()
+		} else {
+			key = n.Obj().Name() + "." + c.Method.Name()
+		}
+	}
+	if fc := e.P.Cs.Funcs[key]; fc != nil {
+		if fc.Pure || len(fc.Modifies) == 0 && fc.Trusted {
+			return
+		}
+	}
+	if _, ok := e.P.Spec.defaultEffect(key, nil); ok {
+		return
+	}
+	iface, ok := it.Underlying().(*types.Interface)
+	if !ok {
+		m["*"] = BoolS
+		return
+	}
+	found := false
+	for _, nk := range e.P.sortedNamed() {
+		n := e.P.Named[nk]
+		if _, isIface := n.Underlying().(*types.Interface); isIface {
+			continue
+		}
+		for _, t := range []types.Type{n, types.NewPointer(n)} {
+			if !types.Implements(t, iface) {
+				continue
+			}
+			sel := e.P.SSA.MethodSets.MethodSet(t).Lookup(c.Method.Pkg(), c.Method.Name())
+			if sel == nil {
+				continue
+			}
+			fn := e.P.SSA.MethodValue(sel)
+			if fn == nil {
+				continue
+			}
+			found = true
+			if !isRepoFunc(fn) {
+				continue
+			}
+			k2 := funcKey(fn)
+			if fc := e.P.Cs.Funcs[k2]; fc != nil && fc.Pure {
+				continue
+			}
+			for k, s := range e.modsetOf(fn) {
+				m[k] = s
+			}
+			break
+		}
+	}
+	if !found {
+		m["*"] = BoolS
 	}
 }
 
